@@ -71,12 +71,12 @@ def check_cas_claim(ctx, F, fn, rule, what):
     okall &= ctx.judge(bool(trues) and bool(falses), rule, "%s: reports both outcomes" % what, expected="returns true (I did it) and false (someone else did)", found=str([show(r[1])[:40] for r in rows]),
                        where=where(fn), key=key0 + "|outcomes")
     for b, t, g in trues:
-        okt = any("is_ok" in show(p.tree) and c.name in show(p.tree) and p.val is True for p in g)
+        okt = any(c.name in show(p.tree) and (("is_ok" in show(p.tree) and p.val is True) or ("is_err" in show(p.tree) and p.val is False) or p.val == "Ok") for p in g)
         okall &= ctx.judge(okt, rule, "%s: 'I did it' only after a successful RMW" % what, expected="true returned only under rmw(..).is_ok() == true",
                            found=str(["%s==%s" % (show(p.tree)[:60], p.val) for p in g]), where=where(fn), key=key0 + "|true")
     loads = [x for x in live_calls(fn) if x.name in load_names and x.args]
     for b, t, g in falses:
-        okf = any(any(tree_calls(p.tree, name=n) for n in load_names) for p in g) and not any("is_ok" in show(p.tree) and p.val is False for p in g)
+        okf = any(any(tree_calls(p.tree, name=n) for n in load_names) for p in g) and not any(("is_ok" in show(p.tree) and p.val is False) or ("is_err" in show(p.tree) and p.val is True) or (c.name in show(p.tree) and p.val == "Err") for p in g)
         okall &= ctx.judge(okf, rule, "%s: 'someone else did it' only from a loaded value" % what, expected="false returned under a comparison of the freshly loaded state (never merely because the CAS failed)",
                            found=str(["%s==%s" % (show(p.tree)[:60], p.val) for p in g]), where=where(fn), key=key0 + "|false")
     old = strip(fn.flow.arg_tree(c, 2)) if len(c.args) > 2 else None
@@ -85,7 +85,7 @@ def check_cas_claim(ctx, F, fn, rule, what):
     okall &= ctx.judge(ok_old, rule, "%s: the expected-old value is the loaded state (or a constant different from the new one)" % what, expected="CAS(old = loaded value | const != new)",
                        found="old=%s new=%s" % (show(old)[:80], show(new)[:60]), where=where(fn, c.line), key=key0 + "|old")
     # retry: from the failed-CAS edge, no return without a new load
-    fails = branch_edges(fn, r"is_ok\(", False)
+    fails = branch_edges(fn, r"is_ok\(", False) + branch_edges(fn, r"is_err\(", True) + branch_edges(fn, r"^[\w:<> ]*%s\(" % c.name, "Err")
     okr = bool(fails) and bool(loads)
     for a, s in fails:
         reach = fn.cfg.reachable_from(s, avoid={x.bb for x in loads}) | {s}
